@@ -71,13 +71,26 @@ def reference(j):
     """the table recorded for the reviewed tree"""
     sigs = {f['path']: f.get('sig') for f in j['items']['fns']}
     fns = {}
+    bodies = {b['path']: b for b in j['bodies']}
     for f in j['items']['fns']:
         p = f['path']
         fns[p] = {'sig': f.get('sig'), 'shape': shape_of(j['bodies'], p, sigs)}
+        if p in bodies:
+            fns[p]['params'] = param_names(bodies[p])
     adts = {}
     for a in j['items']['adts']:
         adts[a['path']] = [[v['name'], [[fl['name'], fl.get('ty_norm') or fl.get('ty')] for fl in v['fields']]] for v in a.get('variants', [])]
     return {'fns': fns, 'adts': adts}
+
+
+def param_names(b):
+    """names of the parameters of a body, by position (None where the pattern is not a plain binding)"""
+    out = [None] * b.get('arg_count', 0)
+    for d in b.get('debug', []):
+        a = d.get('arg')
+        if a and 1 <= a <= len(out) and not d['place']['p']:
+            out[a - 1] = d['name']
+    return out
 
 
 def load_reference():
@@ -206,4 +219,46 @@ def canonicalise(j, ref=None):
         if subs:
             for key in ('items', 'bodies', 'consts'):
                 j[key] = _rewrite_strings(j[key], subs)
+    # ---- parameter names ---------------------------------------------------------------------------
+    # (rules name a value by the parameter it comes from; a renamed parameter keeps its position and type)
+    cur = {f['path']: f for f in j['items']['fns']}
+    for b in j['bodies']:
+        r = ref['fns'].get(b['path'])
+        if not r or not r.get('params') or b['path'] not in cur or cur[b['path']].get('sig') != r.get('sig'):
+            continue
+        now = param_names(b)
+        if len(now) != len(r['params']) or now == r['params']:
+            continue
+        ren = {n: o for n, o in zip(now, r['params']) if n and o and n != o}
+        if not ren or any(n in r['params'] for n in ren) or len(set(ren.values())) != len(ren):
+            continue
+        # the new name must not already be used by another variable of the function (or of its closures)
+        family = [x for x in j['bodies'] if x['path'] == b['path'] or x['path'].startswith(b['path'] + '::{')]
+        used = {d['name'] for x in family for d in x.get('debug', [])}
+        if any(o in used for o in ren.values()):
+            continue
+
+        def fixn(name):
+            parts = name.split('__')
+            return '__'.join(ren.get(p_, p_) for p_ in parts)
+
+        def walkn(x):
+            if isinstance(x, dict):
+                if 'n' in x and 'f' in x and isinstance(x.get('bt'), str) and x['bt'].startswith('{') and isinstance(x['n'], str):
+                    x['n'] = fixn(x['n'])
+                for v in x.values():
+                    walkn(v)
+            elif isinstance(x, list):
+                for v in x:
+                    walkn(v)
+        for x in family:
+            for d in x.get('debug', []):
+                if d['name'] in ren:
+                    d['name'] = ren[d['name']]
+            if x.get('upvars'):
+                x['upvars'] = [fixn(u) for u in x['upvars']]
+            walkn(x.get('blocks') or [])
+            walkn(x.get('debug') or [])
+        for n, o in ren.items():
+            applied.append('parameter %s of %s -> %s' % (n, b['path'], o))
     return applied
